@@ -490,6 +490,7 @@ pub fn check(tier: &str, seed: u64, only: Option<&str>) -> i32 {
                 *tot.entry("jobs_pushed").or_default() += stats.pushes;
                 *tot.entry("preemption_points_inside_jobs").or_default() += stats.preempt_points;
                 *tot.entry("threads_created_by_the_code_under_test").or_default() += stats.foreign_threads;
+                *tot.entry("callback_faults_injected_in_warm_up").or_default() += stats.callback_faults;
                 *tot.entry("injected_jobs").or_default() += stats.injections;
                 *tot.entry("entropy_bytes_served").or_default() += stats.entropy_bytes;
                 *tot.entry("hash_key_draws").or_default() += stats.hashkey_draws;
